@@ -393,6 +393,22 @@ def expected_template(tpl, items):
 # ------------------------------------------------------------------------------------------------
 # running the implementation
 
+class Twin:
+    """marker inside a write script: between two writes another RecordDescriptor object EQUAL to `desc` is created
+    (as a second reader of the same record type does); record classes are cached per (name, fields), so from then on
+    the records' `_desc` is that new object -- equal by value, different by identity"""
+
+    def __init__(self, desc):
+        self.desc = desc
+
+    def fire(self):
+        from flow.record import RecordDescriptor
+        RecordDescriptor(self.desc.name, [(t, n) for t, n in self.desc.get_field_tuples()])
+
+    def __repr__(self):
+        return "<new equal descriptor object for %s>" % self.desc.name
+
+
 def uri_for(scheme, path, o, via_kwargs):
     """(uri, kwargs) -- options travel through the URI query unless via_kwargs"""
     q, kw = [], {}
@@ -422,6 +438,9 @@ def run_writer(scheme, path, recs, o, via_kwargs=False):
     try:
         w = RecordWriter(uri, **kw)
         for r in recs:
+            if isinstance(r, Twin):
+                r.fire()
+                continue
             w.write(r)
         w.flush()
         w.close()
@@ -485,8 +504,6 @@ def gen_sequence(rnd, idx, hostile=True):
     from flow.record.base import GroupedRecord
     nd = rnd.choice([1, 2, 2, 3])
     descs = [gen_descriptor(rnd, idx * 10 + i) for i in range(nd)]
-    # a twin: equal by value, different object (header must NOT be repeated)
-    twins = {id(D): RecordDescriptor(D.name, [(t, n) for t, n in D.get_field_tuples()]) for D in descs}
     recs = []
     n = rnd.randint(1, 6)
     cur = rnd.choice(descs)
@@ -495,7 +512,7 @@ def gen_sequence(rnd, idx, hostile=True):
         if k < 0.45:
             pass                       # same descriptor again
         elif k < 0.6:
-            cur = twins.get(id(cur), cur) if rnd.random() < 0.7 else cur
+            recs.append(Twin(cur))     # equal by value, different object: the header must NOT be repeated
         else:
             cur = rnd.choice(descs)
         if rnd.random() < 0.08 and len(descs) >= 2:
@@ -629,9 +646,10 @@ def classify_texts(texts):
     return None
 
 
-def run_sequence(ctx, rep, rnd, idx, recs, workdir, cfgname="gen_cfg", collect=None):
-    """Runs every writer on `recs` with drawn options; python-level property checks report through `rep`;
-    returns the Gallina boolean terms (sub-checks) of this sequence."""
+def run_sequence(ctx, rep, rnd, idx, script, workdir, cfgname="gen_cfg", collect=None):
+    """Runs every writer on the write script (records and Twin markers) with drawn options; python-level property
+    checks report through `rep`; returns the Gallina boolean terms (sub-checks) of this sequence."""
+    recs = [x for x in script if not isinstance(x, Twin)]
     try:
         obss = [observe(r) for r in recs]
     except TextFormError as e:
@@ -660,6 +678,7 @@ def run_sequence(ctx, rep, rnd, idx, recs, workdir, cfgname="gen_cfg", collect=N
                 ctx.count_case(("grouped-shadow", bad[0], repr(obs)))
                 return []
     recs_term = clist(c_rec(o) for o in obss)
+    script_repr = [repr(x) if isinstance(x, Twin) else repr(observe(x)) for x in script]
     sel = gen_select_opts(rnd, recs)
     terms = []
     all_flat = [flat_items(o) for o in obss]
@@ -678,9 +697,9 @@ def run_sequence(ctx, rep, rnd, idx, recs, workdir, cfgname="gen_cfg", collect=N
         o["lineterminator"] = rnd.choice(TERMS)
         term = resolve_escapes(o["lineterminator"] or "\r\n")
         path = os.path.join(workdir, "s%d_%d.csv" % (idx, variant))
-        data, err, ename = run_writer("csvfile", path, recs, o, via_kwargs=rnd.random() < 0.3)
+        data, err, ename = run_writer("csvfile", path, script, o, via_kwargs=rnd.random() < 0.3)
         texts = sel_texts(o)
-        meta = dict(kind="csv", seq=idx, opts=o, records=[repr(x) for x in obss])
+        meta = dict(kind="csv", seq=idx, opts=o, records=script_repr)
         pyrows = None
         if data is None:
             tcls = classify_texts(texts)
@@ -711,9 +730,9 @@ def run_sequence(ctx, rep, rnd, idx, recs, workdir, cfgname="gen_cfg", collect=N
         o = dict(sel) if variant == 0 else {}
         o["verbose"] = rnd.random() < 0.5
         path = os.path.join(workdir, "s%d_%d.line" % (idx, variant))
-        data, err, ename = run_writer("line", path, recs, o, via_kwargs=rnd.random() < 0.3)
+        data, err, ename = run_writer("line", path, script, o, via_kwargs=rnd.random() < 0.3)
         texts = sel_texts(o)
-        meta = dict(kind="line", seq=idx, opts=o, records=[repr(x) for x in obss])
+        meta = dict(kind="line", seq=idx, opts=o, records=script_repr)
         if data is None:
             tcls = classify_texts(texts)
             tcls = None if tcls == "escaped-byte-surrogate" else tcls
@@ -731,8 +750,8 @@ def run_sequence(ctx, rep, rnd, idx, recs, workdir, cfgname="gen_cfg", collect=N
         elif rnd.random() < 0.15:
             o["format_spec"] = ""
         path = os.path.join(workdir, "s%d_%d.txt" % (idx, variant))
-        data, err, ename = run_writer("text", path, recs, o, via_kwargs=rnd.random() < 0.3)
-        meta = dict(kind="text", seq=idx, opts=o, records=[repr(x) for x in obss])
+        data, err, ename = run_writer("text", path, script, o, via_kwargs=rnd.random() < 0.3)
+        meta = dict(kind="text", seq=idx, opts=o, records=script_repr)
         tpl = resolve_escapes(o["format_spec"]) if o.get("format_spec") else None
         ivs = [items_with_values(r) for r in recs]
         # what the property demands
@@ -986,7 +1005,8 @@ def replay_witnesses(ctx, kf, workdir):
     data, err, en = run_writer("text", p("w4.txt"), [D(s="x", _generated=TS)], {"format_spec": "{s} {n:>5}"})
     hit("C20-text-spec-on-none", en == "TypeError", "text writer output %r" % (data,))
     # 5 a surrogate no handler can encode
-    outs = [run_writer(sch, p("w5." + sch), [D(s="\ud800", n=1, _generated=TS)], {})[2] for sch in ("csvfile", "line", "text")]
+    outs = [run_writer(sch, p("w5." + sch), [D(s="\ud800", n=1, _generated=TS)], {"format_spec": "{s}"} if sch == "text" else {})[2]
+            for sch in ("csvfile", "line", "text")]
     hit("C20-unencodable-surrogate", outs == ["UnicodeEncodeError"] * 3, "exceptions %r" % (outs,))
     # 6 filesize whose text form raises
     outs = [run_writer(sch, p("w6." + sch), [F(size=2 * 10 ** 17, _generated=TS)], {})[2] for sch in ("csvfile", "line", "text")]
@@ -1124,7 +1144,9 @@ def search(ctx, reason):
     rep = Report(ctx, kf, reason)
     try:
         replay_witnesses(ctx, kf, _workdir(ctx))
-        b = core.coq_build(["model/Csv.vo", "lib/CaseLib.vo"])
+        # the model alone (no generated facts needed: the cases use pinned_cfg); a generator name that matches
+        # nothing keeps the broken translator from failing this build
+        b = core.coq_build(["model/Csv.vo", "lib/CaseLib.vo"], gens=["__model_only__"])
         terms, metas, failing, err = correspondence(ctx, rep, cfgname="pinned_cfg", extra_import="", with_env=False,
                                                     nseq=40 if ctx.tier == "quick" else 200)
     except Exception as e:  # noqa
